@@ -4,7 +4,7 @@ From Coq Require Import List Bool Arith.
 Import ListNotations.
 Require Import EV.model.Ids EV.proofs.IdsP EV.model.Chan EV.proofs.ChanP EV.gen.Facts.
 
-Lemma C18_cfg_ok : icfg_ok ids_cfg /\ ids_codec_by_id = true /\ chan_local_close_order_ok = true /\ chan_handlers_ok = true /\ chan_close_shape_ok = true /\ loss_finished_receiving_ok = true /\ ids_tables_forget_ok = true.
+Lemma C18_cfg_ok : icfg_ok ids_cfg /\ ids_codec_by_id = true /\ chan_local_close_order_ok = true /\ chan_handlers_ok = true /\ chan_close_shape_ok = true /\ loss_finished_receiving_ok = true /\ ids_tables_forget_ok = true /\ reconf_handler_creates_object = false.
 Proof. repeat split; reflexivity. Qed.
 
 (* for every number of allocating threads on either side and every interleaving of their read-count /
@@ -37,3 +37,43 @@ Print Assumptions C18_registers_only_new_setcb.
 Example C18_witness : let s := irun ids_cfg [IRead false 0; IRead true 0; IWrite true 0; IAdopt false 2; IWrite false 0; IRead false 1; IWrite false 1] (iinit ids_cfg 2 1) in
   out (sa s) = [3; 1] /\ out (sb s) = [2].
 Proof. split; reflexivity. Qed.
+
+Require Import EV.model.Reconf EV.proofs.ReconfP.
+
+(* Channel.reconfigure() and channels that travel: on the side that receives the per-channel RECONFIGURE (model
+   Reconf.v, instantiated with the regenerated fact reconf_handler_creates_object = false; tie: that fact checks the
+   exact bodies of new() and _local_reconfigure, and the differential of c18.py runs generated operation sequences on a
+   real ChannelFactory) the message never makes this side say CLOSE / LAST_MESSAGE -- in every history only the user
+   dropping the Channel object does -- so a channel configured before it is sent over arrives connected; the
+   setting is in force for the next item and once the channel object has arrived; nothing but another RECONFIGURE
+   changes it while the id is known here (object dropped and re-created through its callback registration included). *)
+Theorem C18_reconfigure_is_silent : forall ops s,
+  Forall2 (fun o r => match o with RDrop => True | _ => fst r = [] end) ops (snd (rrun reconf_handler_creates_object s ops)).
+Proof. exact only_drops_emit. Qed.
+Print Assumptions C18_reconfigure_is_silent.
+
+Theorem C18_reconfigure_keeps_the_channel : forall s c, let s' := fst (r_reconf reconf_handler_creates_object s c) in
+  alive s' = alive s /\ obj_queue s' = obj_queue s /\ (cb s' = None <-> cb s = None).
+Proof. exact reconf_keeps_presence. Qed.
+Print Assumptions C18_reconfigure_keeps_the_channel.
+
+Theorem C18_reconfigure_in_force : forall s c, rwf s ->
+  chan_cfg (fst (r_reconf reconf_handler_creates_object s c)) = Some c /\
+  match r_data (r_new (fst (r_reconf reconf_handler_creates_object s c))) with Dropped => False | ToQueue c' => c' = c | ToCallback c' => c' = c end.
+Proof. intros s c W. split; [exact (reconf_sets s c W) | exact (reconf_in_force_on_arrival s c W)]. Qed.
+Print Assumptions C18_reconfigure_in_force.
+
+Theorem C18_setting_stable : forall s o c, rwf s -> (forall c', o <> RReconf c') -> chan_cfg s = Some c ->
+  let s' := fst (fst (rstep reconf_handler_creates_object s o)) in chan_cfg s' = Some c \/ (chan_cfg s' = None /\ o = RDrop).
+Proof. exact setting_stable. Qed.
+Print Assumptions C18_setting_stable.
+
+Theorem C18_reachable_states_wellformed : forall g ops, rwf (fst (rrun reconf_handler_creates_object (rinit g) ops)).
+Proof. intros g ops. exact (rwf_run ops (rinit g) (rwf_init g)). Qed.
+Print Assumptions C18_reachable_states_wellformed.
+
+(* the pinned handler (`factory.new(id)._strconfig = strconfig`): configuring a channel this side holds no object for
+   made it say CLOSE -- the defect repaired by f2c0a30 *)
+Theorem C18_pinned_reconfigure_closes_refuted : exists g c, snd (r_reconf true (rinit g) c) = [ECLOSE].
+Proof. exact pinned_handler_closes_refuted. Qed.
+Print Assumptions C18_pinned_reconfigure_closes_refuted.
